@@ -3,6 +3,7 @@ import FancyModel.Model.Regex
 import FancyModel.Model.Chars
 import FancyModel.Spec.Domain
 import FancyModel.Driver.Wire
+import FancyModel.Model.VMBytesCheck
 /-!
 # Driver glue for the engine operations (`pat`, `facts`, `prog`, `caps`). Tie code, not model.
 -/
@@ -208,6 +209,56 @@ def doCaps (cur : Cur) (fields : List String) : String :=
             | some f => SearchResult.found f.slots
             | none => .noMatch
           s!"{showResult off r}\t{st.steps},{st.backtracks},{st.maxDepth}\t{showResult off ref}"
+    | _, _, _, _ => "bad-op"
+  | _ => "bad-op"
+
+/-- capture slots that are already byte offsets: printed raw, in the format of `showSlots` -/
+def showSlotsRaw (slots : List (Option Nat)) : String :=
+  let rec go : List (Option Nat) → List String
+    | a :: b :: rest =>
+      (match a, b with
+       | some x, some y => toString x ++ "," ++ toString y
+       | some x, none => toString x ++ ",?"
+       | none, _ => "-") :: go rest
+    | _ => []
+  " ".intercalate (go slots)
+
+/-- outcome of the byte machine in the format of `showResult` (slots truncated to the capture slots as
+    `Built.captures` does; the offsets are byte offsets already) -/
+def showOutcomeB (nGroups : Nat) : Outcome → String
+  | .matched saves => "m " ++ showSlotsRaw ((viewSlots saves).take (nGroups * 2))
+  | .noMatch => "none"
+  | .errLimit => "err:limit"
+  | .errStack => "err:stack"
+  | .panic s => "panic:" ++ s
+  | .outOfFuel => "fuel"
+
+/-- `capsB <hextext> <bytepos> <skipped 0|1> <limit>`: the BYTE-level machine (`Model/VMBytes.lean`) on the
+    encoded text from the byte position; then `ok=` the run-time monitor `okLoop` and `wt=` the typing
+    check `wellTyped` of the refinement theorem (`runB_refines`), both with the typing `tauOf` -/
+def doCapsB (cur : Cur) (fields : List String) : String :=
+  match fields with
+  | [htext, pos, sk, limit] =>
+    match unhex htext, pos.toNat?, bool01 sk, limit.toNat? with
+    | some text, some bytePos, some skipped, some limit =>
+      match cur.built with
+      | .error e => "err:" ++ errName e
+      | .ok b =>
+        match b.kind with
+        | .wrap => "skip"
+        | .fancy prog =>
+          let chars := text.toList
+          if !(cur.modelled && chars.all Chars.modelledChar) then "skip" else
+          match charIndexOf (offsets chars) bytePos with
+          | none => "badpos"
+          | some cpos =>
+            let c := mkCtx chars cpos skipped
+            let op : VMOpts := ⟨limit, maxStackDefault⟩
+            let τ := tauOf prog.body b.nGroups
+            let (out, st) := runB (BCtx.ofCtx c) prog op driverFuel
+            let ok := okLoop c τ prog.nSaves prog.body op driverFuel 0 c.pos (State.new prog.nSaves op.maxStack) 0
+            let wt := wellTyped τ prog.body
+            s!"{showOutcomeB b.nGroups out}\t{st.steps},{st.backtracks},{st.maxDepth}\tok={b01 ok}\twt={b01 wt}"
     | _, _, _, _ => "bad-op"
   | _ => "bad-op"
 
